@@ -153,7 +153,7 @@ def build_lib(variant="asan"):
         if r.returncode != 0:
             raise BuildError(r.stdout)
         os.replace(tmp, lib)
-        _prune(libdir, 3)
+        _prune(libdir, 10)
         # object cache: keep the most recently used ~1500 objects (about 10 trees' worth of changes)
         _prune(objdir, 1500, key=os.path.getatime)
         log("built %s in %.1fs" % (lib, time.time() - t0))
